@@ -144,7 +144,13 @@ def classify(pid, cls, findings):
         props = f["property"] if isinstance(f["property"], list) else [f["property"]]
         if pid not in props or f.get("status") != "open":
             continue
-        if all(_match_one(cls.get(k), m) for k, m in f["match"].items()):
+        ok = True
+        for k, m in f["match"].items():
+            if k == "any_of_fields":
+                ok = ok and any(_match_one(cls.get(k2), m2) for k2, m2 in m.items())
+            else:
+                ok = ok and _match_one(cls.get(k), m)
+        if ok:
             return f
     return None
 
